@@ -6,7 +6,23 @@ Every 'kill' entry was first shown to pass the pinned suite (selftest/mutants.py
 SC = "OpenPinch/classes/stream_collection.py"
 ST = "OpenPinch/classes/stream.py"
 
+PTB = "OpenPinch/classes/problem_table.py"
+
 MUTANTS = [
+    # ------------------------------------------------------------------ C08
+    dict(name="m6_filter_tol_zero", prop="C08", edits=[(PTB, "        mask = np.nanmin(gaps, axis=0) > tol\n", "        mask = np.nanmin(gaps, axis=0) > 0\n")]),
+    dict(name="c08_interp_ratio_from_top", prop="C08", edits=[(PTB, "        ratio = (temps - row_bot[t_idx]) / denom\n", "        ratio = (row_top[t_idx] - temps) / denom\n")], note="equal at mid-points only"),
+    dict(name="c08_return_requested_count", prop="C08", edits=[(PTB, "        self.data = new_data\n        return inserted\n", "        self.data = new_data\n        return int(T_insert.size)\n")]),
+    dict(name="c08_drop_interp_key", prop="C08", edits=[(PTB, "    PT.H_NET_V.value,\n", "")], note="one curve column no longer interpolated"),
+    dict(name="c08_mid_cp_from_upper", prop="C08", expect="silent", edits=[(PTB, "                row_bot,\n                copy_interpolation=False,\n                zero_non_interpolation=False,\n                relevant_cp_source=row_bot,\n", "                row_bot,\n                copy_interpolation=False,\n                zero_non_interpolation=False,\n                relevant_cp_source=row_top,\n")], note="negative control: C08 does not constrain the heat capacity of new rows (that is C05)"),
+    dict(name="c08_bottom_adjust_broken", prop="C08", edits=[(PTB, "        adjusted[delta_idx] = last_temp - adjusted[t_idx]\n", "        adjusted[delta_idx] = adjusted[delta_idx]\n")], note="lower neighbour keeps its old width"),
+    dict(name="c08_group_dedupe_off", prop="C08", edits=[(PTB, "            if bucket and abs(bucket[-1] - T_vals[i]) <= tol:\n                continue\n", "            if bucket and abs(bucket[-1] - T_vals[i]) <= 0:\n                continue\n")], note="near-duplicates inside one request both inserted"),
+    dict(name="c08_top_end_value_zero", prop="C08", edits=[(PTB, "                if copy_interpolation:\n                    target_row[col_idx] = value\n", "                if copy_interpolation:\n                    target_row[col_idx] = value if key != PT.H_COLD.value else 0.0\n")], note="rows outside the old range take 0 instead of the end value for one curve"),
+    dict(name="c08_mid_width_below_again", prop="C08", edits=[(PTB, "            rows[i, delta_idx] = temps_chain[i] - temps_chain[i + 1]\n", "            rows[i, delta_idx] = temps_chain[i + 1] - temps_chain[i + 2]\n")], note="re-introduces the repaired defect"),
+    dict(name="c08_bottom_order_again", prop="C08", edits=[(PTB, "        temps_sorted = np.sort(T_vals) if is_top_block else np.sort(T_vals)[::-1]\n", "        temps_sorted = np.sort(T_vals)\n"), (PTB, "        return (block[::-1] if is_top_block else block), row_neighbor\n", "        return block[::-1], row_neighbor\n")], note="re-introduces the repaired defect"),
+    dict(name="c08_inside_strict_no_tol", prop="C08", edits=[(PTB, "            inside = (upper - tol > mid_temps) & (mid_temps > lower + tol)\n", "            inside = (upper - 5 * tol > mid_temps) & (mid_temps > lower + 5 * tol)\n")], note="temperatures 2 tol from a row pass the filter but are silently not inserted while being counted"),
+    dict(name="c08_second_call_stale_index", prop="C08", edits=[(PTB, "        T_insert = self._Ts_needing_insertion(T_vals)  \n", "        T_insert = self._Ts_needing_insertion(T_vals) if self.data.shape[0] < 9 else T_vals\n")], note="duplicate filter skipped once the table has grown to 9 rows: needs a history"),
+
     # ------------------------------------------------------------------ C19
     dict(name="m1_add_no_dirty", prop="C19", edits=[(SC, "        self._streams[key] = stream\n        self._needs_sort = True\n", "        self._streams[key] = stream\n")]),
     dict(name="m2_remove_no_dirty", prop="C19", edits=[(SC, "            del self._streams[stream_name]\n            self._needs_sort = True\n", "            del self._streams[stream_name]\n")]),
